@@ -18,6 +18,14 @@ func init() { commands["dims"] = dimsCmd }
 // dimsCmd sweeps the dimension fields of every header kind (C05's
 // quantifier) and writes events in the TraceContainers format: the abstract
 // file is the single header chunk (plus what the format needs around it).
+func mustFile(js string) []concrete.Chunk {
+	var f []concrete.Chunk
+	if err := json.Unmarshal([]byte(js), &f); err != nil {
+		panic(err)
+	}
+	return f
+}
+
 func dimsCmd(args []string) error {
 	fs := flag.NewFlagSet("dims", flag.ExitOnError)
 	out := fs.String("out", "", "ndjson of observation events")
@@ -181,6 +189,23 @@ func dimsCmd(args []string) error {
 		}
 		if err := emit("webp", `[{"t":"VP8X","iccf":true,"alpha":false,"exif":false,"xmp":false,"w":70000,"h":3},{"t":"ICCP","pid":8,"cross":true},{"t":"VP8","w":5,"h":6,"ws":0,"hs":0}]`); err != nil {
 			return err
+		}
+	}
+	// C06: the end of the ICC-carrying structure at every offset around the loaders' 4096-byte
+	// buffer boundary (what is read next - CRC, next header - then comes from a fresh fill)
+	if *icc {
+		for _, pid := range []int{2, 4} {
+			for r := -9; r <= 9; r++ {
+				// where the iCCP data ends with no padding (for the variant this emission gets),
+				// then the padding that moves that end to 3*4096 + r
+				v := (id + 1) % 4
+				base := concrete.Build(concrete.Case{Fmt: "png", File: mustFile(fmt.Sprintf(`[{"t":"IHDR","w":9,"h":8,"d":8,"ct":2,"il":0},{"t":"anc","size":"pad:0"},{"t":"iCCP","name":3,"method":0,"z":"ok6","pid":%d,"cross":false},{"t":"IDAT"},{"t":"IEND"}]`, pid))}, v)
+				end := base.Layout.ICCEnd - 4 // end of the chunk data (before the CRC)
+				pad := ((4096*3+r-end)%4096 + 4096) % 4096
+				if err := emit("png", fmt.Sprintf(`[{"t":"IHDR","w":9,"h":8,"d":8,"ct":2,"il":0},{"t":"anc","size":"pad:%d"},{"t":"iCCP","name":3,"method":0,"z":"ok6","pid":%d,"cross":false},{"t":"anc","size":"pad:6000"},{"t":"IDAT"},{"t":"IEND"}]`, pad, pid)); err != nil {
+					return err
+				}
+			}
 		}
 	}
 	fmt.Printf("{\"cases\":%d,\"events\":%d}\n", id, 2*id)
